@@ -14,7 +14,7 @@ def cid? (s : String) : Option Nat :=
   if s.startsWith "c" then (s.drop 1).toString.toNat? else none
 
 def stName : St → String
-  | .ver => "ver" | .sec => "sec" | .init => "init" | .normal => "normal"
+  | .ver => "ver" | .sec => "sec" | .auth => "auth" | .init => "init" | .normal => "normal"
 
 def b01 (b : Bool) : String := if b then "1" else "0"
 
@@ -28,12 +28,15 @@ def evName : Event → String
   | .close i => s!"close c{i}"
   | .gone i => s!"gone c{i}"
   | .kbd i => s!"kbd c{i}"
+  | .xnew i => s!"xnew c{i}"
+  | .xinit i => s!"xinit c{i}"
+  | .xclose i d => s!"xclose c{i} {if d then "d" else "n"}"
 
 def connTok (w : World) (i : Nat) (c : Conn) : String :=
   if w.list.contains i && !w.cleaned then
     let o := if c.sockOpen then "open" else "closed"
     let r := if c.sockOpen then
-        s!"s{screenIndex w.screens c.scr}z{c.res.z}t{c.res.t}j{c.res.j}r{c.res.r}b{c.res.b}u{c.res.u}x{c.res.x}w{b01 c.wsctx}p{b01 c.wspath}f{b01 c.ftFd}e{c.exts}"
+        s!"s{screenIndex w.screens c.scr}z{c.res.z}t{c.res.t}j{c.res.j}r{c.res.r}b{c.res.b}u{c.res.u}x{c.res.x}w{b01 c.wsctx}p{b01 c.wspath}f{b01 c.ftFd}e{c.exts}d{b01 c.extData}"
       else "-"
     s!"c{i}:L1:{o}:h{b01 c.onHold}:{stName c.st}:g{c.goneCalls}:k{c.closeCalls}:{r}"
   else s!"c{i}:L0:-:-:-:g{c.goneCalls}:k{c.closeCalls}:-"
@@ -49,7 +52,10 @@ def stateLine (w : World) : String :=
   let cs := if w.conns.isEmpty then "-" else
     " ".intercalate ((enumFrom 0 w.conns).map fun p => connTok w p.1 p.2)
   let refs := if w.cleaned then "-" else ",".intercalate (w.screens.map fun s => toString s.refs)
-  s!"{evs} | {cs} | refs={refs} stray={strayShown w}"
+  let po := if w.cleaned then "" else match w.ptrOwner with
+    | some i => s!" po=c{i}"
+    | none => " po=-"
+  s!"{evs} | {cs} | refs={refs}{po} stray={strayShown w}"
 
 /-- "z1t0j0r0b2u0x0" -> Res -/
 def parseRes (s : String) : Option Res :=
@@ -106,9 +112,12 @@ def protoOk (w : World) (i : Nat) (m : Msg) : Bool :=
     if !c.peerOpen then true else
     -- half a message must stay half a message
     if c.inbox.contains Msg.part then false else
+    -- after a wrong authentication response the server hangs up: whatever follows is dropped
+    if c.inbox.contains (Msg.auth false) then true else
     -- state the server will be in when it gets to this message
     let st := c.inbox.foldl (fun st m => match st, m with
-      | St.ver, Msg.ver => St.sec | St.sec, Msg.sec => St.init | St.init, Msg.init _ => St.normal
+      | St.ver, Msg.ver => St.sec | St.sec, Msg.sec => (if w.pwOn then St.auth else St.init)
+      | St.auth, Msg.auth true => St.init | St.init, Msg.init _ => St.normal
       | st, _ => st) c.st
     -- a connection that is closed (or will be by then) just drops the bytes
     if !c.sockOpen then true else msgOk st m
@@ -120,13 +129,14 @@ def defects (s : DState) : String :=
     (if w.wsLostGone > 0 then ["cleanup-wspath-leak"] else []) ++
     (if w.wsLostHs > 0 then ["ws-multi-get-leak"] else []) ++
     (if w.stray > 0 then ["ft-fd-leak"] else []) ++
-    (if w.extLost > 0 then ["extension-node-leak"] else [])
+    (if w.extLost > 0 then ["extension-node-leak"] else []) ++
+    (if w.extDataLost > 0 then ["cleanup-extension-close-skipped"] else [])
   if ds.isEmpty then "-" else ",".intercalate ds
 
 def endLine (s : DState) : String :=
   let w := s.w
   let openleft := w.conns.countP (fun c => c.closeCalls == 0)
-  let leaks := if w.nbLost + w.recLost + w.wsLostHs + w.wsLostGone + w.extLost > 0 then 1 else 0
+  let leaks := if w.nbLost + w.recLost + w.wsLostHs + w.wsLostGone + w.extLost + w.extDataLost > 0 then 1 else 0
   s!"end openleft={openleft} stray={strayShown w} leaks={leaks} defects={defects s}"
 
 def sendOp (s : DState) (c : String) (m : Msg) (xs : Ann) (rs : ResAnn) : DState × List String :=
@@ -140,9 +150,9 @@ def sendOp (s : DState) (c : String) (m : Msg) (xs : Ann) (rs : ResAnn) : DState
 def dstep (s : DState) (toks0 : List String) : DState × List String :=
   let (xs, rs, toks) := parseAnn toks0
   match toks with
-  | ["variant", a, b, c, d, e, f] =>
+  | ["variant", a, b, c, d, e, f, g] =>
     let t (x : String) := x == "1"
-    ({ s with v := ⟨t a, t b, t c, t d, t e, t f⟩ }, ["ok"])
+    ({ s with v := ⟨t a, t b, t c, t d, t e, t f, t g⟩ }, ["ok"])
   | ["end"] => (s, [endLine s])
   | _ =>
   if s.w.cleaned then (s, ["bad-op"]) else
@@ -161,6 +171,11 @@ def dstep (s : DState) (toks0 : List String) : DState × List String :=
   | ["pump"] => fin s (step s.v s.w (.pump xs rs))
   | ["draw", _] => fin s (step s.v s.w (.pump xs rs))
   | ["ext"] => fin s (step s.v s.w .ext)
+  | ["pw"] => fin s (step s.v s.w .pw)
+  | ["cursor"] | ["shutdown0"] => fin s s.w
+  | ["auth", c, r] => sendOp s c (.auth (r == "ok")) xs rs
+  | ["ptr", c, m] => sendOp s c (.ptr (m != "0")) xs rs
+  | ["ftgo", c] => sendOp s c .ftgo xs rs
   | ["shutdown"] => fin s (step s.v s.w .shutdown)
   | ["cleanup"] => fin s (step s.v s.w .cleanup)
   | ["ver", c] => sendOp s c .ver xs rs
